@@ -334,6 +334,7 @@ var c09Behaviours = []behaviour{
 	{"tcp-refused", "tcp", "error", 0, true}, {"udp-closed-port", "udp", "error", 0, true}, {"unreachable", "udp", "error", 0, true}, {"unreachable", "broadcast", "error", 0, true},
 	{"set-address", "udp", "success", 0, false}, {"set-address", "broadcast", "success", 0, false}, {"set-address", "tcp", "success", 0, false},
 	{"discovery", "broadcast", "success", 0.93, true},
+	{"set-address-closed-port", "udp", "success", 0, false}, // SetAddress is done once the request is out: nobody has to be listening
 }
 
 var c09Flood = behaviour{"flood", "broadcast", "error", 0.93, true}
@@ -355,7 +356,7 @@ func (e *c09Env) run(b behaviour, serial uint32, bind string) c09Result {
 	switch {
 	case b.name == "tcp-refused":
 		cfg.Devices = []DevCfg{{ID: serial, Addr: fmt.Sprintf("127.0.0.1:%d", e.closed), Proto: "tcp"}}
-	case b.name == "udp-closed-port":
+	case b.name == "udp-closed-port" || b.name == "set-address-closed-port":
 		cfg.Devices = []DevCfg{{ID: serial, Addr: fmt.Sprintf("127.0.0.1:%d", e.closed), Proto: "udp"}}
 	case b.name == "unreachable" && b.path == "udp":
 		cfg.Devices = []DevCfg{{ID: serial, Addr: "203.0.113.7:60000", Proto: "udp"}}
@@ -390,7 +391,7 @@ func (e *c09Env) run(b behaviour, serial uint32, bind string) c09Result {
 		defer close(done)
 		var out rm.Outcome
 		switch b.name {
-		case "set-address":
+		case "set-address", "set-address-closed-port":
 			out, _ = adapter.SafeCall(u, "SetAddress", serial, rm.Vals{"Address": rm.IPVal(10, 0, 0, 9), "Mask": rm.IPVal(255, 255, 255, 0), "Gateway": rm.IPVal(10, 0, 0, 1)}, adapter.Aux{})
 		case "discovery":
 			if _, err := u.GetDevices(); err != nil {
@@ -449,6 +450,12 @@ func (e *c09Env) judge(res c09Result, caseNo int64, phase string, queuePos int) 
 			c.Res.Inconcl(fmt.Sprintf("%s over %s: the host stalled the process for %v during the call: timing not judged", b.name, b.path, st))
 			return
 		}
+	}
+	if b.name == "set-address-closed-port" {
+		if !ok {
+			c.Res.Violate(key+":failed", fmt.Sprintf("SetAddress to a UDP address where nobody listens failed after %v: %s (the operation has no reply: it is done when the request is sent)", res.elapsed, res.err), w, caseNo)
+		}
+		return
 	}
 	if b.expect == "success" && !ok && b.name != "set-address" && b.name != "discovery" {
 		// a call that gave up early returns before the farm's (delayed) reply has left: give the farm until T after it saw the
@@ -603,6 +610,28 @@ func c09(c *Ctx) {
 				e2.judge(results[i], caseNo, "other-protocol-strings", 0)
 			}
 			e2.fm.Close()
+		}
+	}
+
+	// ---- phase 1a": a client configured with a timeout of zero (or less) has no time to wait: against a silent network its calls
+	// return at once with an error - they do not wait for ever
+	if !only2 && !onlyFlood {
+		for _, T0 := range []time.Duration{0, -time.Second} {
+			e0 := newC09Env(c, T0)
+			if e0 == nil {
+				continue
+			}
+			e0.slack = 1500*time.Millisecond - T0
+			for _, b := range []behaviour{{"silence", "udp", "error", 0, true}, {"silence", "broadcast", "error", 0, true}, {"tcp-stall", "tcp", "error", 0, true}, {"silence", "udp", "error", 0, true}} {
+				caseNo++
+				res := e0.run(b, next(), bindIP+":0")
+				e0.judge(res, caseNo, fmt.Sprintf("timeout=%v", T0), 0)
+				c.Res.Count("calls-with-a-timeout-of-zero-or-less", 1)
+				if res.hung {
+					break
+				}
+			}
+			e0.fm.Close()
 		}
 	}
 
@@ -817,7 +846,7 @@ func c09(c *Ctx) {
 
 	// ---- phase 2b: two TCP calls in a row from one fixed bind port (to two different controllers: the kernel refuses to reuse a
 	// 4-tuple that is in TIME_WAIT, whatever the library does): the second must not be refused its own bind port
-	if !only2 && !onlyFlood {
+	if !onlyFlood {
 		for round := 0; round < c.N(3, 12); round++ {
 			port := freePort(bindIP)
 			if port == 0 {
